@@ -30,7 +30,7 @@ class LoopSpec:
 class Case:
     def __init__(self, label, params, requires=None, ensures=None, raises=None, loops=None, exact_integer=False,
                  must_return=None, result_name="result", ghost=None, max_paths=400, axioms=None, yields=None,
-                 native_gen=None, native_call=None, size_bounded=False):
+                 native_gen=None, native_call=None, size_bounded=False, kwargs_map=None):
         self.label, self.params = label, params
         self.requires, self.ensures = requires, ensures
         self.raises = raises or {}
@@ -44,6 +44,7 @@ class Case:
         self.native_gen = native_gen
         self.native_call = native_call
         self.size_bounded = size_bounded
+        self.kwargs_map = kwargs_map or {}      # keyword name -> case parameter passed under that keyword (**kwargs of the function)
 
 
 class FnContract:
@@ -69,6 +70,9 @@ def realize(world, data, mod):
         return set(realize(world, x, mod) for x in data["__set__"])
     if isinstance(data, dict) and "__map__" in data:
         return {realize(world, k, mod): realize(world, v, mod) for k, v in data["__map__"]}
+    if isinstance(data, dict) and "__class__" in data and data["__class__"] in getattr(world, "stub_realize", {}):
+        fields = {k: realize(world, v, mod) for k, v in data.items() if k != "__class__"}
+        return world.stub_realize[data["__class__"]](fields)
     if isinstance(data, dict) and "__class__" in data:
         cls = getattr(mod, data["__class__"])
         fields = {k: realize(world, v, mod) for k, v in data.items() if k != "__class__"}
@@ -107,7 +111,7 @@ def verify_case(fc: FnContract, case: Case, timeout_ms=10000, budget_s=240):
             return dict(status=UNDECIDED, detail=f"more than {case.max_paths} paths", stats=stats)
         prefix = work.pop()
         ctx = Ctx(world, prefix, timeout_ms)
-        it = Interp(ctx, case)
+        it = (getattr(case, "interp_cls", None) or Interp)(ctx, case)     # a contract may supply an Interp subclass (additive value kinds)
         it.top_fn = fn
         it.in_top = True
         args = {p: fresh(ctx, t, p) for p, t in case.params.items()}
@@ -135,7 +139,8 @@ def verify_case(fc: FnContract, case: Case, timeout_ms=10000, budget_s=240):
                         return dict(status=FAULT, detail="precondition is unsatisfiable (vacuous contract)", stats=stats)
                 outcome, value = "return", None
                 try:
-                    env = it.bind(fn, [args[p] for p in case.params], {})
+                    km = case.kwargs_map
+                    env = it.bind(fn, [args[p] for p in case.params if p not in km.values()], {k: args[v] for k, v in km.items()})
                     if case.yields is not None:
                         from .engine import SeqV as _SeqV
                         env["yielded"] = _SeqV(z3.Empty(z3.SeqSort(world.sort_of(case.yields))), case.yields)
@@ -178,6 +183,9 @@ def verify_case(fc: FnContract, case: Case, timeout_ms=10000, budget_s=240):
                         ctx.prove(S.to_z3(allowed(ns_old)), f"raises:{value}")
                     if case.must_return is not None:
                         ctx.prove(S.to_z3(S.Not(case.must_return(ns_old))), f"must-return-but-raised:{value}")
+                    if getattr(case, "exc_ensures", None) is not None:
+                        # exceptional postcondition (additive): state guaranteed when the function leaves by exception `value`
+                        ctx.prove(S.to_z3(case.exc_ensures(value, ns_old, ns_new)), f"exc-post:{value}")
                 if not stats.get("live"):
                     # cover check: at least one completed path must not be refutably infeasible (else every VC was vacuous)
                     set_budget(ctx.solver, 1500)
@@ -218,7 +226,16 @@ def replay_case(fc: FnContract, case: Case, model):
     import copy
     args = {p: realize(world, model[p], mod) for p in case.params}
     try:
-        old = copy.deepcopy(args)
+        memo = {}
+        old = copy.deepcopy(args, memo)
+        # identity across the call: a copy in `old` remembers which live object it was copied from (spec.same_object)
+        for orig in list(memo.get(id(memo), [])):
+            cp = memo.get(id(orig))
+            if cp is not None and cp is not orig and hasattr(cp, "__dict__"):
+                try:
+                    object.__setattr__(cp, "_vf_origin", orig)
+                except Exception:  # pylint: disable=broad-except
+                    pass
     except Exception:  # pylint: disable=broad-except
         old = dict(args)
     parts = fc.qualname.split(".")
@@ -233,7 +250,9 @@ def replay_case(fc: FnContract, case: Case, model):
         if isinstance(f, property):
             f = f.fget
     except AttributeError as ex:
-        return dict(confirmed=None, note=f"cannot locate real function: {ex}")
+        if case.native_call is None:
+            return dict(confirmed=None, note=f"cannot locate real function: {ex}")
+        f = None        # closures (`f.<locals>.g`) are not module attributes: the case's native_call builds and invokes the real one
     ns_old = NS(old)
     try:
         if case.requires is not None and not S.truth(case.requires(NS(args))):
@@ -253,6 +272,12 @@ def replay_case(fc: FnContract, case: Case, model):
         ok = allowed is not None and S.truth(allowed(ns_old))
         if ok and case.must_return is not None and S.truth(case.must_return(ns_old)):
             ok = False
+        if ok and getattr(case, "exc_ensures", None) is not None:
+            try:
+                ok = S.truth(case.exc_ensures(name, ns_old, NS(args)))
+            except Exception as ex2:  # pylint: disable=broad-except
+                return dict(confirmed=None, note=f"exceptional postcondition failed to evaluate: {type(ex2).__name__}: {ex2}",
+                            inputs=S.show(old))
         return dict(confirmed=not ok, observed=f"raised {name}: {ex}", expected="allowed exceptions: " + ", ".join(case.raises) or "none",
                     inputs=S.show(old))
     try:
@@ -288,6 +313,8 @@ def gen_value(world, t, rng, depth=0):
         return None
     if k == "const":
         return t.args[0]
+    if k == "build":
+        return t.kw["gen"](rng)
     if k == "classref":
         return {"__classref__": t.args[0]}
     if k == "ufunc":
@@ -432,6 +459,8 @@ def lemma(pid, name, vars_, goal, *, assumptions=(), timeout_ms=20000, sample=No
 
     def fn():
         from .engine import fresh_check
+        z3.set_param("smt.mbqi", True)
+        z3.set_param("smt.random_seed", 0)
         s = z3.Solver()
         set_budget(s, timeout_ms)
         for a in assumptions:
